@@ -1,5 +1,5 @@
 (* driver of the extracted C11 models
-   inc ((<id> L|B (s <tag>)|(i <id>) ...) ...) ((s <tag>)|(i <id>) ...)
+   inc ((<id> L|B (s <tag>)|(i <id>)|(b item ...) ...) ...) ((s <tag>)|(i <id>)|(b item ...) ...)
        -> ok (s t) (m id) (c id) (f id) ... | outoffuel | crash | err
    infer <seed> ((<name> <fastly 0|1> <scope decimal> <callee> ...) ...)
        -> ok ((<name> <scopes>) ...) cyc (<name> ...) | ...
@@ -17,9 +17,10 @@ let int_of_n = function N0 -> 0 | Npos p -> int_of_pos p
 
 let atom_int = function At a -> int_of_string a | _ -> failwith "expected number"
 
-let item_of = function
+let rec item_of = function
   | Ls [At "s"; t] -> Stmt (nat_of_int (atom_int t))
   | Ls [At "i"; t] -> Inc (nat_of_int (atom_int t))
+  | Ls (At "b" :: items) -> Blk (List.map item_of items)
   | _ -> failwith "item"
 
 let mod_of = function
@@ -52,7 +53,9 @@ let shuffle (seed : int) (l : 'a list) : 'a list =
 
 let decl_of = function
   | Ls (n :: f :: sc :: cs) ->
-    { d_name = nat_of_int (atom_int n); d_fastly = (atom_int f = 1); d_scope = n_of_int (atom_int sc);
+    (* <fastly>: 0 plain, 1 Fastly lifecycle name, 2 name rejected at registration (builtin function / namespace) *)
+    { d_name = nat_of_int (atom_int n); d_fastly = (atom_int f = 1); d_rejected = (atom_int f = 2);
+      d_scope = n_of_int (atom_int sc);
       d_callees = List.map (fun c -> nat_of_int (atom_int c)) cs }
   | _ -> failwith "decl"
 
